@@ -42,12 +42,26 @@ def _write_only(records, **opts):
         return open(p).read()
 
 
+def _digest_text(r):
+    """JSON carries a digest as its hex text: the text written is the text read (the binary record stream stores the binary digests, there the letter case
+    cannot survive - h_C01.deep leaves it out for that reason)"""
+    from flow.record.fieldtypes import digest
+
+    out = []
+    for k in r.__slots__:
+        v = getattr(r, k)
+        for d in (v if isinstance(v, list) else [v]):
+            if isinstance(d, digest):
+                out.append((k, d.md5, d.sha1, d.sha256))
+    return out
+
+
 def _compare(records, **opts):
     try:
         text, back = _roundtrip(records, **opts)
     except Exception as e:
         return {"violates": True, "detail": f"JSON round trip raised {type(e).__name__}: {e}"}
-    a, b = [H.deep(r) for r in records], [H.deep(r) for r in back]
+    a, b = [(H.deep(r), _digest_text(r)) for r in records], [(H.deep(r), _digest_text(r)) for r in back]
     if a != b:
         k = next((i for i, (x, y) in enumerate(zip(a, b)) if x != y), min(len(a), len(b)))
         return {"violates": True, "detail": f"record {k}: written {a[k] if k < len(a) else None!r:.250} read {b[k] if k < len(b) else None!r:.250}"}
